@@ -21,7 +21,7 @@ from mro import (call, pipeline, program, ref, split, stage, const, echo)
 
 
 def key_programs():
-    P = [p for p in shapes.catalogue(big=True) if p["name"].startswith(("keys_", "nest_", "map_nested_noret")) or p["name"] in ("map_keys", "map_dyn2", "map_dyn_static", "map_dyn_static_split")]
+    P = [p for p in shapes.catalogue(big=True) if p["name"].startswith(("keys_", "nest_", "map_nested_noret")) or p["name"] in ("map_keys", "map_dyn2", "map_dyn_static", "map_dyn_static_split", "prefix_names")]
     sets = {"keys_mixed": ["a", "a.b", "a/b", "%2E", "..", "é", " "],
             "keys_forklike": ["fork0", "fork_a", "u0123456789", "chnk1", "1", "01"],
             "keys_prefix": ["x", "x_x", "x%5Fx", "x.x"],
@@ -107,7 +107,7 @@ def run(tier, replay=None):
     import psrun
     import random
     rng = random.Random(vlib.seed())
-    oprogs = [p for p in shapes.catalogue() if p["name"] in ("diamond", "split2", "map_dyn2", "subpipe")]
+    oprogs = [p for p in shapes.catalogue() if p["name"] in ("diamond", "split2", "map_dyn2", "subpipe", "split10")]
     sem, _ = psrun.semantics(oprogs)
     ospecs = []
     for p in oprogs:
